@@ -342,6 +342,11 @@ SHAPES = {
     "partial_overlap": ([0, 1, 2, 3, 4], [2.5, 3.5, 4.5, 5.5, 6.5, 7.5]),
     "one_row_overlap": ([0, 0.5, 1.0, 1.5, 2.0], [2.0, 3.0, 4.0]),
     "outage_vs_subsample": ([0, 1, 2, 3, 4, 5, 6, 30, 31], [0, 2, 4, 6]),
+    # equally long tables on offset grids, stamped from zero and from an epoch-like origin (GPS seconds of week): what is
+    # "the same grid" must not be judged with a tolerance relative to the size of the stamps
+    "offset_equal_length": ([0, 1, 2, 3], [0.5, 1.5, 2.5, 3.5]),
+    "offset_equal_length_epoch": ([345600, 345601, 345602, 345603], [345600.5, 345601.5, 345602.5, 345603.5]),
+    "two_rates_epoch": ([345600, 345600.5, 345601, 345601.5, 345602, 345602.5, 345603], [345600, 345600.75, 345601.5, 345602.25, 345603]),
 }
 
 
